@@ -132,6 +132,17 @@ theorem nodup_of_hasDup (xs : List String) (h : hasDup xs = false) : xs.Nodup :=
     rw [this] at h
     exact absurd h.1 (by simp)
 
+theorem hasDup_of_nodup (xs : List String) (h : xs.Nodup) : hasDup xs = false := by
+  induction xs with
+  | nil => rfl
+  | cons y ys ih =>
+    obtain ⟨hy, hnd⟩ := List.nodup_cons.mp h
+    simp only [hasDup, Bool.or_eq_false_iff]
+    refine ⟨?_, ih hnd⟩
+    cases hc : ys.contains y with
+    | false => rfl
+    | true => exact absurd (by simpa using hc) hy
+
 theorem mem_filterMask {α} (K : List Bool) (xs : List α) (x : α) (h : x ∈ filterMask K xs) : x ∈ xs := by
   induction xs generalizing K with
   | nil => cases K <;> simp [filterMask] at h
@@ -224,6 +235,132 @@ theorem idx_lt_of_mem (xs : List String) (x : String) (h : x ∈ xs) : idx xs x 
       rcases List.mem_cons.mp h with rfl | h
       · exact absurd rfl hy
       · have := ih h; omega
+
+
+theorem dropProd_clearNth (K : List Bool) (shape : List Nat) (p : Nat) (hl : K.length = shape.length)
+    (hp : p < (filterMask K shape).length) :
+    dropProd (clearNth K p) shape = (filterMask K shape).getD p 0 * dropProd K shape := by
+  induction shape generalizing K p with
+  | nil => cases K <;> simp [filterMask] at hp
+  | cons n ns ih =>
+    cases K with
+    | nil => simp at hl
+    | cons k ks =>
+      have hl' : ks.length = ns.length := by simpa using hl
+      cases k with
+      | false =>
+        simp only [clearNth, filterMask, dropProd] at hp ⊢
+        rw [ih ks p hl' hp]; ring
+      | true =>
+        cases p with
+        | zero => simp [clearNth, filterMask, dropProd]
+        | succ p =>
+          simp only [clearNth, filterMask, dropProd, List.getD_cons_succ] at hp ⊢
+          exact ih ks p hl' (by simpa using hp)
+
+theorem filterMask_length_eq {α β} (K : List Bool) (xs : List α) (ys : List β) (h : xs.length = ys.length) :
+    (filterMask K xs).length = (filterMask K ys).length := by
+  induction xs generalizing K ys with
+  | nil =>
+    cases ys with
+    | nil => cases K <;> simp [filterMask]
+    | cons y ys => simp at h
+  | cons x xs ih =>
+    cases ys with
+    | nil => simp at h
+    | cons y ys =>
+      have h' : xs.length = ys.length := by simpa using h
+      cases K with
+      | nil => simp only [filterMask, List.length_cons]; rw [ih [] ys h']
+      | cons k ks =>
+        cases k with
+        | false => simp only [filterMask]; exact ih ks ys h'
+        | true => simp only [filterMask, List.length_cons]; rw [ih ks ys h']
+
+theorem filterMask_allTrue {α} (xs : List α) : filterMask (List.replicate xs.length true) xs = xs := by
+  induction xs with
+  | nil => simp [filterMask]
+  | cons x xs ih => simp only [List.length_cons, List.replicate_succ, filterMask, ih]
+
+theorem maskSum_allTrue (shape : List Nat) (g : List Nat → Rat) (i : List Nat) (hi : i.length = shape.length) :
+    maskSum shape (List.replicate shape.length true) g i = g i := by
+  induction shape generalizing g i with
+  | nil =>
+    have : i = [] := List.eq_nil_of_length_eq_zero (by simpa using hi)
+    subst this; simp [maskSum]
+  | cons n ns ih =>
+    cases i with
+    | nil => simp at hi
+    | cons x xs =>
+      simp only [List.length_cons, List.replicate_succ, maskSum, List.headD_cons, List.tail_cons]
+      exact ih (fun t => g (x :: t)) xs (by simpa using hi)
+
+theorem dropProd_allTrue (shape : List Nat) : dropProd (List.replicate shape.length true) shape = 1 := by
+  induction shape with
+  | nil => simp [dropProd]
+  | cons n ns ih => simp only [List.length_cons, List.replicate_succ, dropProd, ih]
+
+theorem getD_setAt {α} (l : List α) (a k : Nat) (v d : α) :
+    (setAt l a v).getD k d = if k = a ∧ a < l.length then v else l.getD k d := by
+  induction l generalizing a k with
+  | nil => simp [setAt]
+  | cons x xs ih =>
+    cases a with
+    | zero =>
+      cases k with
+      | zero => simp [setAt]
+      | succ k => simp [setAt]
+    | succ a =>
+      cases k with
+      | zero => simp [setAt]
+      | succ k =>
+        simp only [setAt, List.getD_cons_succ, ih, List.length_cons]
+        simp
+
+/-- clearing the mask entries of a list of axes one by one gives the keep-mask of the list -/
+theorem foldl_setAt_false (axes : List Nat) (K : List Bool) :
+    axes.foldl (fun K a => setAt K a false) K = tab K.length fun k => K.getD k true && !axes.contains k := by
+  induction axes generalizing K with
+  | nil =>
+    simp only [List.foldl_nil, List.contains_nil, Bool.not_false, Bool.and_true]
+    exact eq_tab_of_getD K K.length _ true rfl fun i _ => rfl
+  | cons a as ih =>
+    simp only [List.foldl_cons]
+    rw [ih, setAt_length]
+    apply tab_congr
+    intro k hk
+    rw [getD_setAt]
+    simp only [List.contains_cons]
+    by_cases hka : k = a
+    · subst hka; simp [hk]
+    · have : (k == a) = false := by simpa using hka
+      simp [hka, this]
+
+theorem keepMask_eq_foldl (n : Nat) (axes : List Nat) :
+    keepMask n axes = axes.foldl (fun K a => setAt K a false) (List.replicate n true) := by
+  rw [foldl_setAt_false]
+  unfold keepMask
+  simp only [List.length_replicate]
+  apply tab_congr
+  intro k hk
+  simp [List.getD_eq_getElem?_getD, hk]
+
+theorem dropProd_pos (K : List Bool) (shape : List Nat) (h : ∀ n ∈ shape, 0 < n) : 0 < dropProd K shape := by
+  induction shape generalizing K with
+  | nil => cases K with
+    | nil => simp [dropProd]
+    | cons k ks => cases k <;> simp [dropProd]
+  | cons n ns ih =>
+    cases K with
+    | nil => simp [dropProd]
+    | cons k ks =>
+      cases k with
+      | false =>
+        simp only [dropProd]
+        exact Nat.mul_pos (h n (by simp)) (ih ks fun m hm => h m (by simp [hm]))
+      | true =>
+        simp only [dropProd]
+        exact ih ks fun m hm => h m (by simp [hm])
 
 
 end DFV.C06
